@@ -94,7 +94,7 @@ fn main() {
     ctx.run_slice(Slice::new(format!("typed-pairs-structured[{}^2]", nst), nst * nst, |i, loc| check_pair::<B>(&st[(i / nst) as usize], &st[(i % nst) as usize], loc)));
     // the same on large operands (sizes 33 .. 129)
     let sizes: Vec<usize> = if ctx.quick() { vec![33, 65] } else { vec![33, 64, 65, 129] };
-    let big: Vec<_> = ohmc::props::structured::shapes_at(&sizes, false).into_iter().map(|x| x.1).step_by(2).collect();
+    let big: Vec<_> = ohmc::props::structured::shapes_at_labelled(&sizes, false).into_iter().map(|x| x.1).step_by(2).collect();
     let nb = big.len() as u64;
     ctx.run_slice(Slice::new(format!("typed-pairs-structured-large[sizes {:?}: {}^2]", sizes, nb), nb * nb, |i, loc| check_pair::<B>(&big[(i / nb) as usize], &big[(i % nb) as usize], loc)));
     let tys3: Vec<Vec<u8>> = vec![vec![], vec![0], vec![1, 0], vec![0, 1, 1]];
